@@ -28,7 +28,7 @@ func checkOne(src []byte, v px.Ver) (string, string, bool) {
 		return "", "", false
 	}
 	harness.Eval()
-	rep := oracle.CheckPositions(r.Root, v.IsPHP5())
+	rep := oracle.CheckPositions(r.Root, v.IsPHP5(), src)
 	if rep.Clause != "" {
 		return rep.Clause, fmt.Sprintf("[version %s] %s", v, rep.Msg), true
 	}
